@@ -51,7 +51,7 @@ Recomputable(e) == Scalar(e.old) /\ Scalar(e.rhs) /\ e.new.k # "none" /\ Scalar(
 WriteOk(e) ==
   IF e.new.k = "none" THEN TRUE          \* failed update: nothing stored (the cell keeps `old')
   ELSE /\ InType(e.new, e.ty)
-       /\ IF e.op = "=" THEN e.new = e.rhs
+       /\ IF e.op = "=" THEN (e.new.k = e.rhs.k /\ e.new = e.rhs)
           ELSE IF ~Recomputable(e) THEN TRUE
           ELSE LET r == ApplyBin(SubSeq(e.op, 1, Len(e.op) - 1), LV(e.old), LV(e.rhs)) IN
                IF r.k = "err" THEN r.e \in Inconclusive    \* the code stored a value where the operator fails
@@ -80,7 +80,7 @@ Witness(v, ty, exh) ==
   IF v.k = "tuple" /\ ty.k = "tuple" /\ Len(v.es) = Len(ty.es)
      /\ \E i \in 1..Len(v.es) : ~InType(v.es[i], ty.es[i])
   THEN LET i == CHOOSE i \in 1..Len(v.es) : ~InType(v.es[i], ty.es[i]) /\ \A j \in 1..(i - 1) : InType(v.es[j], ty.es[j])
-       IN Witness(v.es[i], ty.es[i], Len(v.es) = 2 /\ i = 2 /\ v.es[1] = [k |-> "bool", v |-> FALSE])
+       IN Witness(v.es[i], ty.es[i], Len(v.es) = 2 /\ i = 2 /\ v.es[1].k = "bool" /\ v.es[1].v = FALSE)
   ELSE IF v.k = "array" /\ ty.k = "array" /\ Matches(Arr(Unwire(v.tag)), t)
           /\ \E i \in 1..Len(v.es) : ~InType(v.es[i], ty.e)
   THEN Witness(v.es[CHOOSE i \in 1..Len(v.es) : ~InType(v.es[i], ty.e)], ty.e, FALSE)
